@@ -85,7 +85,7 @@ def one_writer(ctx, r, symlink=False):
         base.close()
 
 
-def one_reader(ctx, r, legacy=False, writer=None, reader=None, torn=None):
+def one_reader(ctx, r, legacy=False, writer=None, reader=None, torn=None, frag=None):
     """the converse schedule: a *reader* is parked after each of its own calls on the log (open, every read, close), a writer runs to completion
     meanwhile, the reader goes on — it must succeed and show the state before or after that writer.  Half of the stores end in the torn
     fragment of a killed writer (which the reader skips and the writer repairs)."""
@@ -94,7 +94,7 @@ def one_reader(ctx, r, legacy=False, writer=None, reader=None, torn=None):
     try:
         torn = r.p(55) if torn is None else torn
         if torn:
-            frag = r.pick([b'{"type":"state","ts":"2026-01-01T00:00:00Z","data":{"id":"', b'{"type":"new_task","ts":"2026-01-01T00:00:00.5Z","data":{"id":"QQQQQQ","uuid":"u","title":"half', b'{'])
+            frag = frag or r.pick([b'{"type":"state","ts":"2026-01-01T00:00:00Z","data":{"id":"', b'{"type":"new_task","ts":"2026-01-01T00:00:00.5Z","data":{"id":"QQQQQQ","uuid":"u","title":"half', b'{'])
             with open(base.log_path(), "ab") as f:
                 f.write(frag)
             trace = trace + [{"edit": "torn fragment of a killed writer appended to the log (no newline): %r" % frag[:40]}]
@@ -212,9 +212,11 @@ def run(ctx):
                     break
     # a reader in the middle of a log that ends in a killed writer's fragment, while a command that appends several lines repairs that tail and writes:
     # the bytes the reader has already seen must stay what they were (the fragment is dropped by replacing the file, never by cutting it in place)
-    for writer in (("claim-oldest", ["--json", "--agent", "w", "claim"], None), ("new-task{state}", ["--json", "--agent", "w", "new", "task"], b'{"title":"w","state":"doing"}')):
+    # (with fragments of two lengths that are no prefix of what the writer appends: a one-byte `{` would, glued to the rest of a line, read as that line)
+    for writer, frag in ((("claim-oldest", ["--json", "--agent", "w", "claim"], None), b'{"type":"state","ts":"2026-01-01T00:00:00Z","data":{"id":"'),
+                         (("new-task{state}", ["--json", "--agent", "w", "new", "task"], b'{"title":"w","state":"doing"}'), b'{"type":"body","ts":"2026-01-01T00:00:00.5Z","data":{"id":"QQQQQQ","body":"half a bo')):
         for _ in range(6):
-            if one_reader(ctx, r.fork(), writer=writer, reader=["--json", "list", "--all"], torn=True) != "empty":
+            if one_reader(ctx, r.fork(), writer=writer, reader=["--json", "list", "--all"], torn=True, frag=frag) != "empty":
                 break
     for i in range(4 if ctx.quick else 100):
         one_reader(ctx, r.fork(), legacy=(i % 3 == 2))
